@@ -4,6 +4,7 @@ package main
 // solvers; first definitive answer wins.
 
 import (
+	"runtime"
 	"bufio"
 	"bytes"
 	"context"
@@ -381,8 +382,18 @@ type solverAnswer struct {
 	secs   float64
 }
 
+// procSem bounds the number of solver processes running at once to the number of cores, so
+// that a solver's time limit measures solving, not waiting for a CPU.
+var procSem = make(chan struct{}, runtime.NumCPU())
+
 func runSolver(ctx context.Context, sd solverDef, file string, timeoutS int) solverAnswer {
 	argv := sd.argv(file, timeoutS)
+	select {
+	case procSem <- struct{}{}:
+	case <-ctx.Done():
+		return solverAnswer{sd.name, "cancelled", "", 0}
+	}
+	defer func() { <-procSem }()
 	t0 := time.Now()
 	cctx, cancel := context.WithTimeout(ctx, time.Duration(timeoutS+2)*time.Second)
 	defer cancel()
